@@ -8,7 +8,7 @@ git checkout -q -- . ; git clean -fdq -e target
 {
 echo "### confirm $ID/$M at $(date -u +%FT%TZ)"
 git apply --check $OUT/patch.diff && echo "patch applies: yes" || { echo "patch applies: NO"; exit 1; }
-cp $SRC $DEST
+mkdir -p $(dirname $DEST); cp $SRC $DEST
 echo "--- demo WITHOUT patch"
 cargo test --offline -p ${PKG:-ractor} --test $T $EXTRA 2>&1 | grep -E "^test result|^test .*(ok|FAILED)$|error(\[|:)" | head -20
 git apply $OUT/patch.diff
